@@ -316,7 +316,26 @@ def tr_block(stmts, cx, k):
     if isinstance(s, ast.Return):
         if s.value is None:
             fail(s, "bare return")
+        if isinstance(s.value, ast.IfExp):
+            # return A if c else B   ==   if c: return A / else: return B   (the branches may differ in type)
+            v = s.value
+            new_if = ast.If(test=v.test, body=[ast.copy_location(ast.Return(value=v.body), s)],
+                            orelse=[ast.copy_location(ast.Return(value=v.orelse), s)])
+            return tr_block([ast.copy_location(new_if, s)] + rest, cx, k)
         return ret_value(s.value, cx)
+    if isinstance(s, ast.If) and isinstance(s.test, ast.BoolOp) and len(s.test.values) >= 2 \
+            and any(isinstance(n, ast.Subscript) for n in ast.walk(s.test)):
+        # `or` / `and` evaluate lazily: an operand that can raise (a constant-dict lookup) must only be evaluated when
+        # the operands before it did not decide.  Desugar into nested ifs, one operand at a time.
+        first, others = s.test.values[0], s.test.values[1:]
+        tail_test = others[0] if len(others) == 1 else ast.copy_location(ast.BoolOp(op=s.test.op, values=others), s.test)
+        if isinstance(s.test.op, ast.Or):
+            inner = ast.copy_location(ast.If(test=tail_test, body=s.body, orelse=s.orelse), s)
+            outer = ast.copy_location(ast.If(test=first, body=s.body, orelse=[inner]), s)
+        else:
+            inner = ast.copy_location(ast.If(test=tail_test, body=s.body, orelse=s.orelse), s)
+            outer = ast.copy_location(ast.If(test=first, body=[inner], orelse=s.orelse), s)
+        return tr_block([outer] + rest, cx, k)
     if isinstance(s, ast.If):
         t, tt = tr_expr(s.test, cx)
         if tt != "bool":
@@ -456,13 +475,35 @@ def gen_criteria(repo):
         if len(args) != 3:
             fail(fn, "criterion arity")
         body = [s for s in fn.body if not (isinstance(s, ast.Expr) and isinstance(s.value, ast.Constant))]
-        if len(body) != 1 or not isinstance(body[0], ast.Return):
-            fail(fn, "criterion body shape")
         cx = Ctx(extra_types, {}, feat_vars=args[:2])
-        v, t = tr_expr(body[0].value, cx)
-        if t != "bool" or cx.wrappers:
+        v = bool_block(body, cx, fn)
+        if cx.wrappers:
             fail(fn, "criterion result type")
         return args, v
+
+    def bool_block(stmts, cx, fn):
+        """straight-line boolean code: assignments, `if b: return ...` with or without else, a final return"""
+        if not stmts:
+            fail(fn, "criterion falls off the end")
+        st, rest = stmts[0], stmts[1:]
+        if isinstance(st, ast.Return) and st.value is not None:
+            v, t = tr_expr(st.value, cx)
+            if t != "bool":
+                fail(st, "criterion result type")
+            return v
+        if isinstance(st, ast.Assign) and len(st.targets) == 1 and isinstance(st.targets[0], ast.Name):
+            v, t = tr_expr(st.value, cx)
+            cx.types[st.targets[0].id] = t
+            return "(let %s := %s in %s)" % (st.targets[0].id, v, bool_block(rest, cx, fn))
+        if isinstance(st, ast.If):
+            c, ct = tr_expr(st.test, cx)
+            if ct != "bool":
+                fail(st, "if on non-bool (truthiness not modelled)")
+            a = bool_block(list(st.body) + ([] if always_returns(st.body) else rest), Ctx(cx.types, cx.consts, False, cx.feat_vars), fn)
+            b = bool_block(list(st.orelse) + ([] if st.orelse and always_returns(st.orelse) else rest),
+                           Ctx(cx.types, cx.consts, False, cx.feat_vars), fn)
+            return "(if %s then %s else %s)" % (c, a, b)
+        fail(st, "criterion statement")
 
     for n in simple:
         fn = find_func(tree, n)
